@@ -214,7 +214,7 @@ theorem composeLoop_spec {a b : C} (hIa : Inv a) (hIb : Inv b) (hc : Compatible 
             refine ⟨t, ht, h1.trans hun, h2, ?_⟩
             have e1 := hC.inv.pts_card ht; have e2 := hIb.pts_card hu
             rw [h2] at e1; omega
-          obtain ⟨c'', bs, hadd, hI'', hsimps'', hbs, -⟩ := addFacets (cN := d) (fs := s.faces) (nm := s.name)
+          obtain ⟨c'', fs', bs, hadd, hI'', hsimps'', -, hbs, -⟩ := addFacets (cN := d) (fs := s.faces) (nm := s.name)
             (k := s.order) (B := s.pts) hC.inv hpos fn fl
             (by
               intro f hf
@@ -260,7 +260,7 @@ theorem composeLoop_spec {a b : C} (hIa : Inv a) (hIb : Inv b) (hc : Compatible 
           rw [hadd]
           simp only
           apply ih (P ++ [s]) _ hPR'
-          have hmem : ∀ x, x ∈ c''.simps ↔ x = ⟨s.name, s.order, s.faces, bs⟩ ∨ x ∈ d.simps := by
+          have hmem : ∀ x, x ∈ c''.simps ↔ x = ⟨s.name, s.order, fs', bs⟩ ∨ x ∈ d.simps := by
             intro x; rw [hsimps'']; exact mem_insertSorted
           refine ⟨hI'', ?_, ?_, ?_⟩
           · rw [hsimps'']; exact hC.sub.trans (sublist_insertSorted _ _)
